@@ -10,6 +10,7 @@ mod c11;
 mod c12;
 mod c13;
 mod c14;
+mod c15;
 mod c16;
 mod c17;
 mod plugins;
@@ -37,6 +38,7 @@ fn main() {
         "rules" => c04::run(rest),
         "variants" => c14::run(rest),
         "json" => c08::run(rest),
+        "scenarios" => c15::run(rest),
         "datetime" => c11::run(rest),
         "validate" => c13::run(rest),
         "parse1" => {
